@@ -145,21 +145,24 @@ def unitLines : Int → List LocEntry → List (Option Int)
     | .long u d .. => List.replicate u (some (line + d)) ++ unitLines (line + d) rest
     | .none u => List.replicate u none ++ unitLines line rest
 
-abbrev Pos := Option (Int × Int × Int × Int)
+abbrev Pos := Option (Int × Int × Option Int × Option Int)
 
-/-- co_positions(): one (line, endline, col, endcol) per code unit; -1 encodes `None`
-    for a column the form does not carry -/
+/-- a stored `col + 1` of 0 means "no column" -/
+def colOf (c1 : Nat) : Option Int := if c1 = 0 then none else some ((c1 : Int) - 1)
+
+/-- co_positions(): one (line, endline, col, endcol) per code unit; `none` columns
+    where the form carries none -/
 def unitPositions : Int → List LocEntry → List Pos
   | _, [] => []
   | line, e :: rest =>
     match e with
     | .short u c hi lo =>
-      List.replicate u (some (line, line, ((c * 8 + hi : Nat) : Int), ((c * 8 + hi + lo : Nat) : Int))) ++ unitPositions line rest
+      List.replicate u (some (line, line, some ((c * 8 + hi : Nat) : Int), some ((c * 8 + hi + lo : Nat) : Int))) ++ unitPositions line rest
     | .oneLine u k col ec =>
-      List.replicate u (some (line + k, line + k, (col : Int), (ec : Int))) ++ unitPositions (line + k) rest
-    | .noCol u d => List.replicate u (some (line + d, line + d, -1, -1)) ++ unitPositions (line + d) rest
+      List.replicate u (some (line + k, line + k, some (col : Int), some (ec : Int))) ++ unitPositions (line + k) rest
+    | .noCol u d => List.replicate u (some (line + d, line + d, none, none)) ++ unitPositions (line + d) rest
     | .long u d ed c1 ec1 =>
-      List.replicate u (some (line + d, line + d + ed, (c1 : Int) - 1, (ec1 : Int) - 1)) ++ unitPositions (line + d) rest
+      List.replicate u (some (line + d, line + d + ed, colOf c1, colOf ec1)) ++ unitPositions (line + d) rest
     | .none u => List.replicate u none ++ unitPositions line rest
 
 /-- expansion of co_lines()-style ranges to one line per code unit (2 bytes) -/
@@ -191,8 +194,13 @@ structure ExcEntry where
   lasti : Bool
   deriving Repr, DecidableEq
 
+/-- bit 7 on the first byte marks the start of an entry -/
+def markFirst : Bytes → Bytes
+  | [] => []
+  | b :: r => (128 + b) :: r
+
 def encodeExcEntry (e : ExcEntry) : Bytes :=
-  (match encVarintBE e.start with | [] => [] | b :: r => (128 + b) :: r) ++
+  markFirst (encVarintBE e.start) ++
   encVarintBE e.length ++ encVarintBE e.target ++ encVarintBE (e.depth * 2 + (if e.lasti then 1 else 0))
 
 def encodeExc (es : List ExcEntry) : Bytes := es.flatMap encodeExcEntry
